@@ -400,7 +400,7 @@ func (r *qrun) body(tid int, th qthread, mutex bool) func() {
 }
 
 // genQueueProgram: family ∈ lin (offer/poll/peek/isempty), iter (single producer + iterators + consumers), mix, seq (one thread)
-func genQueueProgram(rng *rand.Rand, family string) (ths []qthread, singleProducer bool) {
+func genQueueProgram(rng *rand.Rand, family string, mutex bool) (ths []qthread, singleProducer bool) {
 	next := 1
 	fresh := func() int { v := next; next++; return v }
 	pre := rng.Intn(5)
@@ -467,6 +467,78 @@ func genQueueProgram(rng *rand.Rand, family string) (ths []qthread, singleProduc
 			}
 			ths = append(ths, qthread{ops: c, phase: 1})
 		}
+	case "big":
+		// scale: one goroutine, hundreds of elements, long runs of removed nodes (at the head, in the interior), a buffer that has to
+		// wrap or grow. Thresholds hidden in traversal budgets, hop counters or internal capacities (64, 128, 256, 1024) are crossed here;
+		// the history is sequential, so it is judged by the exact FIFO-list reference, and the trace by the acceptor.
+		n := []int{70, 130, 140, 260, 300, 300, 520, 1100}[rng.Intn(8)]
+		if !mutex && n > 300 {
+			n = []int{70, 130, 140, 260, 270}[rng.Intn(5)] // (the step-level acceptor is quadratic in the number of nodes)
+		}
+		var ops []qop
+		for i := 0; i < n; i++ {
+			ops = append(ops, qop{kind: "offer", v: fresh()})
+		}
+		block := func(skip, k int) qop {
+			rm := make([]bool, skip+k)
+			for i := skip; i < skip+k; i++ {
+				rm[i] = true
+			}
+			return qop{kind: "iter", removes: rm, maxNext: n + 5}
+		}
+		ks := []int{63, 64, 65, 127, 128, 129, 130, 255, 256, 257, 300, n - 1, n}
+		k := ks[rng.Intn(len(ks))]
+		pat := rng.Intn(4)
+		if mutex && pat < 2 {
+			pat = 2 + rng.Intn(2)
+		}
+		switch pat {
+		case 0: // dead prefix left by an iterator, then the operations that walk from the head
+			if k > n {
+				k = n
+			}
+			ops = append(ops, block(0, k))
+		case 1: // dead run in the interior
+			skip := []int{1, 5, 60}[rng.Intn(3)]
+			if skip+k > n {
+				k = n - skip
+			}
+			ops = append(ops, block(skip, k))
+		case 2: // consume a little, then keep producing: an array-backed buffer must wrap and grow without reordering
+			for i := []int{1, 3, n / 2}[rng.Intn(3)]; i > 0; i-- {
+				ops = append(ops, qop{kind: "poll"})
+			}
+			for i := []int{2, 40, 300}[rng.Intn(3)]; i > 0; i-- {
+				ops = append(ops, qop{kind: "offer", v: fresh()})
+			}
+		default: // a long random history
+			for i := 0; i < 2*n; i++ {
+				switch rng.Intn(5) {
+				case 0, 1:
+					ops = append(ops, qop{kind: "offer", v: fresh()})
+				case 2, 3:
+					ops = append(ops, qop{kind: "poll"})
+				default:
+					ops = append(ops, qop{kind: []string{"peek", "size", "isempty"}[rng.Intn(3)]})
+				}
+			}
+		}
+		// observations in the order in which they are most fragile: a fresh traversal first, or the head-walkers first
+		tail := []qop{{kind: "isempty"}, {kind: "size"}, {kind: "peek"}}
+		if !mutex {
+			full := qop{kind: "iter", removes: nil, maxNext: 2*n + 400}
+			if rng.Intn(2) == 0 {
+				tail = append([]qop{full}, tail...)
+			} else {
+				tail = append(tail, full)
+			}
+		}
+		ops = append(ops, tail...)
+		for i := 0; i < 3; i++ {
+			ops = append(ops, qop{kind: "poll"})
+		}
+		ops = append(ops, qop{kind: "size"})
+		ths = append(ths, qthread{ops: ops, phase: 1})
 	case "mseq":
 		// the mutex queue from one goroutine (C15: both implementations behave like a plain FIFO list)
 		var ops []qop
@@ -789,11 +861,14 @@ func runQueue(fs *flag.FlagSet, args []string) {
 			if *cf.kind == "seq" {
 				family = "mseq"
 			}
+			if *cf.kind == "big" {
+				family = "big"
+			}
 		}
-		ths, single := genQueueProgram(rng, family)
+		ths, single := genQueueProgram(rng, family, *impl == "mutex")
 		r := &qrun{mutex: *impl == "mutex", tag: "C13"}
 		r.cd = newCodec([]int{0, 0, 1, 2}[rng.Intn(4)])
-		r.sequential = len(ths) == 1 || family == "seq" // seq: one goroutine per phase, the phases do not overlap
+		r.sequential = len(ths) == 1 || family == "seq" || family == "big" // seq: one goroutine per phase, the phases do not overlap
 		if family == "seq" {
 			r.tag = "C15"
 		}
